@@ -349,6 +349,7 @@ def main(argv=None):
     known_hits = {}
     spurious = 0
     twin_confirmed = set()
+    fallback_items, fallback_cases = set(), []
     for cse, rr in zip(to_replay, rep):
         if cse.get("twin"):
             # clauses of an item whose symbolic run and real-library run disagree, evaluated with the twin's numbers
@@ -370,8 +371,23 @@ def main(argv=None):
             spurious += 1
             inconclusive.append(dict(item=cse["cfg"].get("id"), label=cse["label"],
                                      why="sat but not reproduced on the real code: " + str(rr.get("detail"))[:160]))
+            if cse.get("kind") == "exception" and cse["cfg"].get("id") not in fallback_items:
+                # the symbolic run stopped at an exception the real library does not raise (a stand-in was too narrow for
+                # the changed code): evaluate the clauses of the item on the real library with the same numbers
+                fallback_items.add(cse["cfg"].get("id"))
+                fallback_cases.append(dict(cfg=cse["cfg"], label="*", env=cse["env"], kind="fallback:all-clauses", path=-1))
         else:
             harness_errors.append("replay of %s/%s failed: %s" % (cse["cfg"].get("id"), cse["label"], rr.get("detail")))
+    if fallback_cases:
+        rep2 = do_replays(prop, prop, repo, fallback_cases[:40], os.path.join(VERIF, "out", "replays"))
+        for cse, rr in zip(fallback_cases[:40], rep2):
+            if rr.get("reproduced") is True:
+                k = match_known(known, prop, cse["cfg"], cse["label"], _envf(cse["env"]), rr)
+                if k is not None:
+                    known_hits.setdefault(k["id"], [k, 0])[1] += 1
+                else:
+                    cse = dict(cse, label="(any clause) " + str((rr.get("detail") or {}).get("clause", "") if isinstance(rr.get("detail"), dict) else ""))
+                    violations.append((cse, rr))
     if twin_confirmed:
         # the disagreement is explained by a clause that fails on the real library: reported as violation, not as harness error
         harness_errors = [e for e in harness_errors
